@@ -323,8 +323,40 @@ type c18Shadow struct {
 	ID string `json:"id"` // shallower field wins in encoding/json
 }
 
+// recursion through two pointer levels, through containers of containers, and between two types
+type c18PP struct {
+	Name string  `json:"name"`
+	Next **c18PP `json:"next,omitempty"`
+}
+type c18Deep struct {
+	Name string                `json:"name"`
+	Rows [][]*c18Deep          `json:"rows"`
+	Idx  map[string][]c18Deep  `json:"idx"`
+	Pair [2]*c18Deep           `json:"pair,omitempty"`
+	Opt  *[]c18Deep            `json:"opt,omitempty"`
+}
+type c18A struct {
+	Name string `json:"name"`
+	B    *c18B  `json:"b,omitempty"`
+}
+type c18B struct {
+	N  int    `json:"n"`
+	As []c18A `json:"as"`
+}
+
 func c18Fixed(name string) (any, []any) {
 	switch name {
+	case "recursive-ptrptr":
+		leaf := &c18PP{Name: "leaf"}
+		mid := &c18PP{Name: "mid", Next: &leaf}
+		return c18PP{}, []any{c18PP{Name: "root", Next: &mid}, c18PP{Name: "alone"}}
+	case "recursive-containers":
+		leaf := c18Deep{Name: "leaf", Rows: [][]*c18Deep{}, Idx: map[string][]c18Deep{}}
+		l2 := leaf
+		opt := []c18Deep{leaf}
+		return c18Deep{}, []any{c18Deep{Name: "root", Rows: [][]*c18Deep{{&leaf, &l2}, {}}, Idx: map[string][]c18Deep{"k": {leaf}, "e": {}}, Pair: [2]*c18Deep{&leaf, &l2}, Opt: &opt}}
+	case "recursive-mutual":
+		return c18A{}, []any{c18A{Name: "a", B: &c18B{N: 1, As: []c18A{{Name: "inner", B: &c18B{N: 2, As: []c18A{}}}, {Name: "plain"}}}}, c18A{Name: "solo"}}
 	case "recursive":
 		leaf := c18Node{Name: "leaf", Kids: []c18Node{}, ByID: map[string]*c18Node{}}
 		return c18Node{}, []any{c18Node{Name: "root", Kids: []c18Node{leaf, leaf}, Next: &leaf, ByID: map[string]*c18Node{"a": &leaf, "nil": nil}}, leaf}
@@ -340,7 +372,7 @@ func c18Fixed(name string) (any, []any) {
 	return nil, nil
 }
 
-var c18FixedNames = []string{"recursive", "embedded", "embedded-pointer", "string-option", "shadowed"}
+var c18FixedNames = []string{"recursive-ptrptr", "recursive-containers", "recursive-mutual", "recursive", "embedded", "embedded-pointer", "string-option", "shadowed"}
 
 func runC18(c *C18Case) (C18Obs, string) {
 	var o C18Obs
